@@ -404,3 +404,259 @@ Proof.
   specialize (Hcl j c H1 H3). rewrite Forall_forall in Hcl. specialize (Hcl v Hv).
   rewrite Ev. apply select_nth; assumption.
 Qed.
+
+(* ================================================================== format_length (pad / reject) *)
+Lemma format_length_eq n k a v : length v = n -> format_length n k a v = Ok v.
+Proof.
+  intros H. unfold format_length. rewrite H, Nat.ltb_irrefl. simpl. reflexivity.
+Qed.
+
+Lemma format_length_pad n k a v : length v < n -> format_length n k a v = Ok (v ++ repeat (ndv k) (n - length v)).
+Proof. intros H. unfold format_length. apply Nat.ltb_lt in H. rewrite H. reflexivity. Qed.
+
+Lemma format_length_reject n k a v : n < length v -> a <> AObject -> format_length n k a v = Err ValueError.
+Proof.
+  intros H Ha. unfold format_length.
+  destruct (length v <? n) eqn:E; [apply Nat.ltb_lt in E; lia|].
+  apply Nat.ltb_lt in H. rewrite H. destruct a; simpl; try reflexivity. congruence.
+Qed.
+
+Lemma format_length_ok_length n k a v v' : a <> AObject -> format_length n k a v = Ok v' -> length v' = n.
+Proof.
+  intros Ha. unfold format_length.
+  destruct (length v <? n) eqn:E.
+  - intros H; inversion H; subst. apply Nat.ltb_lt in E. rewrite app_length, repeat_length. lia.
+  - destruct (n <? length v) eqn:E2.
+    + destruct a; simpl; try discriminate. congruence.
+    + simpl. intros H; inversion H; subst. apply Nat.ltb_ge in E, E2. lia.
+Qed.
+
+(* ================================================================== remove_children_values *)
+Definition rcv_kid (m : list bool) (a : assoc) (k k' : kid) : Prop :=
+  kid_id k' = kid_id k /\ kassoc k' = kassoc k /\ kkind k' = kkind k /\
+  kvals k' = if assoc_eqb (kassoc k) a then option_map (select m) (kvals k) else kvals k.
+
+Definition kids_len (a : assoc) (N : nat) (ks : list kid) : Prop :=
+  forall k v, In k ks -> kassoc k = a -> kvals k = Some v -> length v = N.
+
+Definition valued (a : assoc) (ks : list kid) : Prop :=
+  forall k, In k ks -> kassoc k = a -> kvals k <> None.
+
+Lemma assoc_eqb_eq a b : assoc_eqb a b = true <-> a = b.
+Proof. destruct a, b; simpl; split; intros H; try reflexivity; try discriminate. Qed.
+
+Lemma rcv_done fl I I' a N : forall ks ks',
+  kids_len a N ks -> norm_all N I = Some I' ->
+  rcv fl I a (count (keep_mask N I')) ks = (ks', None) ->
+  Forall2 (rcv_kid (keep_mask N I') a) ks ks'.
+Proof.
+  induction ks as [|k r IH]; intros ks' HL HN H; simpl in H.
+  - inversion H. constructor.
+  - assert (HLr : kids_len a N r) by (intros k0 v0 Hin; apply HL; right; exact Hin).
+    destruct (assoc_eqb (kassoc k) a) eqn:Ea.
+    + apply assoc_eqb_eq in Ea.
+      destruct (kvals k) as [v|] eqn:Ev.
+      * assert (Lv : length v = N) by (apply (HL k v); [left; reflexivity|exact Ea|exact Ev]).
+        unfold np_delete in H. rewrite Lv, HN in H.
+        rewrite format_length_eq in H by (rewrite select_length; rewrite ?keep_mask_length; auto).
+        destruct (rcv fl I a (count (keep_mask N I')) r) as [r' e] eqn:R. inversion H; subst.
+        constructor; [|apply IH; auto].
+        unfold rcv_kid. simpl. rewrite Ev. repeat split; auto.
+        rewrite (proj2 (assoc_eqb_eq _ _) Ea). reflexivity.
+      * destruct (f_skip_valueless fl); [|inversion H].
+        destruct (rcv fl I a (count (keep_mask N I')) r) as [r' e] eqn:R. inversion H; subst.
+        constructor; [|apply IH; auto].
+        unfold rcv_kid. rewrite Ev. repeat split; auto.
+        rewrite (proj2 (assoc_eqb_eq _ _) Ea). reflexivity.
+    + destruct (rcv fl I a (count (keep_mask N I')) r) as [r' e] eqn:R. inversion H; subst.
+      constructor; [|apply IH; auto].
+      unfold rcv_kid. rewrite Ea. repeat split; auto.
+Qed.
+
+Lemma rcv_total fl I I' a N : forall ks,
+  kids_len a N ks -> norm_all N I = Some I' ->
+  (f_skip_valueless fl = true \/ valued a ks) ->
+  exists ks', rcv fl I a (count (keep_mask N I')) ks = (ks', None).
+Proof.
+  induction ks as [|k r IH]; intros HL HN HS; simpl.
+  - eexists; reflexivity.
+  - assert (HLr : kids_len a N r) by (intros k0 v0 Hin; apply HL; right; exact Hin).
+    assert (HSr : f_skip_valueless fl = true \/ valued a r).
+    { destruct HS as [HS|HS]; [left; exact HS|right]. intros k0 Hin. apply HS. right. exact Hin. }
+    destruct (IH HLr HN HSr) as [r' Hr]. rewrite Hr.
+    destruct (assoc_eqb (kassoc k) a) eqn:Ea; [|eexists; reflexivity].
+    apply assoc_eqb_eq in Ea.
+    destruct (kvals k) as [v|] eqn:Ev.
+    + assert (Lv : length v = N) by (apply (HL k v); [left; reflexivity|exact Ea|exact Ev]).
+      unfold np_delete. rewrite Lv, HN.
+      rewrite format_length_eq by (rewrite select_length; rewrite ?keep_mask_length; auto).
+      eexists; reflexivity.
+    + destruct HS as [HS|HS]; [rewrite HS; eexists; reflexivity|].
+      exfalso. apply (HS k); [left; reflexivity|exact Ea|exact Ev].
+Qed.
+
+(* two passes (vertex children, then cell children) make a selection of the children *)
+Lemma rcv_compose vm cm ks ks1 ks2 :
+  Forall2 (rcv_kid vm AVertex) ks ks1 -> Forall2 (rcv_kid cm ACell) ks1 ks2 -> Forall2 (sel_kid vm cm) ks ks2.
+Proof.
+  intros H1. revert ks2. induction H1 as [|k k1 r r1 Hk H1 IH]; intros ks2 H2; inversion H2; subst; constructor.
+  - destruct Hk as (A1 & A2 & A3 & A4). destruct H3 as (B1 & B2 & B3 & B4).
+    unfold sel_kid. rewrite B1, B2, B3, A1, A2, A3. repeat split; auto.
+    rewrite B4, A2, A4. destruct (kassoc k); simpl; try reflexivity.
+  - apply IH. assumption.
+Qed.
+
+Lemma rcv_kid_keeps_other m a b ks ks' N :
+  a <> b -> Forall2 (rcv_kid m a) ks ks' -> kids_len b N ks -> kids_len b N ks'.
+Proof.
+  intros Hab H HL k' v' Hin Hb Hv.
+  apply In_nth_error in Hin as [p Hp].
+  destruct (Forall2_nth_r _ _ _ _ _ H Hp) as [k [Hk (E1 & E2 & E3 & E4)]].
+  rewrite E2 in Hb.
+  assert (assoc_eqb (kassoc k) a = false).
+  { destruct (assoc_eqb (kassoc k) a) eqn:E; [|reflexivity]. apply assoc_eqb_eq in E. congruence. }
+  rewrite H0 in E4. apply (HL k v'); [eapply nth_error_In; eauto|exact Hb|congruence].
+Qed.
+
+Lemma rcv_kid_keeps_valued m a b ks ks' :
+  Forall2 (rcv_kid m a) ks ks' -> valued b ks -> valued b ks'.
+Proof.
+  intros H HV k' Hin Hb Hn.
+  apply In_nth_error in Hin as [p Hp].
+  destruct (Forall2_nth_r _ _ _ _ _ H Hp) as [k [Hk (E1 & E2 & E3 & E4)]].
+  rewrite E2 in Hb. apply (HV k); [eapply nth_error_In; eauto|exact Hb|].
+  rewrite Hn in E4. destruct (assoc_eqb (kassoc k) a); destruct (kvals k); simpl in E4; congruence.
+Qed.
+
+Lemma wf_kids_len_v o : wf o -> kids_len AVertex (length (verts o)) (kids o).
+Proof.
+  intros (_ & Hk & _) k v Hin Ha Hv. rewrite Forall_forall in Hk. specialize (Hk k Hin).
+  unfold kid_ok in Hk. rewrite Hv, Ha in Hk. exact Hk.
+Qed.
+
+Lemma wf_kids_len_c o : wf o -> kids_len ACell (length (cells o)) (kids o).
+Proof.
+  intros (_ & Hk & _) k v Hin Ha Hv. rewrite Forall_forall in Hk. specialize (Hk k Hin).
+  unfold kid_ok in Hk. rewrite Hv, Ha in Hk. exact Hk.
+Qed.
+
+(* ================================================================== cell masks *)
+Lemma cell_kept_wf m : forall c, cell_ok (length m) c -> cell_kept m c = Some (forallb (fun v => nth v m false) c).
+Proof.
+  induction c as [|v r IH]; intros H; simpl; [reflexivity|].
+  inversion H; subst. rewrite IH by assumption.
+  destruct (nth_error m v) as [b|] eqn:E; [|apply nth_error_None in E; lia].
+  rewrite (nth_error_nth _ _ false E). reflexivity.
+Qed.
+
+Lemma cells_kept_wf m : forall cs, Forall (cell_ok (length m)) cs -> cells_kept m cs = Some (cell_mask m cs).
+Proof.
+  induction cs as [|c r IH]; intros H; simpl; [reflexivity|].
+  inversion H; subst. rewrite cell_kept_wf, IH by assumption. reflexivity.
+Qed.
+
+Lemma cell_mask_length m cs : length (cell_mask m cs) = length cs.
+Proof. apply map_length. Qed.
+
+Lemma cell_mask_closed m cs : closed m (cell_mask m cs) cs.
+Proof.
+  intros j c Hj Hc. unfold cell_mask in Hj. rewrite nth_error_map, Hc in Hj. simpl in Hj. inversion Hj as [E].
+  apply Forall_forall. intros v Hv. rewrite forallb_forall in E. apply nth_nth_error_true. apply E. exact Hv.
+Qed.
+
+(* kept cells: exactly those all of whose vertices are kept *)
+Lemma cell_mask_true m cs j c : nth_error cs j = Some c ->
+  (nth_error (cell_mask m cs) j = Some true <-> Forall (fun v => nth_error m v = Some true) c).
+Proof.
+  intros Hc. unfold cell_mask. rewrite nth_error_map, Hc. simpl. split.
+  - intros H. inversion H as [E]. apply Forall_forall. intros v Hv. rewrite forallb_forall in E.
+    apply nth_nth_error_true. apply E. exact Hv.
+  - intros H. f_equal. apply forallb_forall. intros v Hv. rewrite Forall_forall in H.
+    apply nth_nth_error_true. apply H. exact Hv.
+Qed.
+
+Lemma new_index_rank_sel vm cm cs : closed vm cm cs -> length cm = length cs ->
+  map (map (new_index vm)) (select cm cs) = map (map (rank vm)) (select cm cs).
+Proof.
+  intros Hcl L. apply map_ext_in. intros c Hin. apply map_ext_in. intros v Hv.
+  apply In_nth_error in Hin as [q Hq].
+  destruct (select_from cm cs q c L Hq) as [j [H1 [_ H3]]].
+  specialize (Hcl j c H1 H3). rewrite Forall_forall in Hcl. specialize (Hcl v Hv).
+  unfold new_index. apply nth_nth_error_true in Hcl. rewrite Hcl. reflexivity.
+Qed.
+
+(* ================================================================== remove_cells *)
+Lemma remove_cells_done fl o I o' :
+  kids_len ACell (length (cells o)) (kids o) -> remove_cells fl o I = Done o' ->
+  exists I', norm_all (length (cells o)) I = Some I' /\
+    ok o' = ok o /\ verts o' = verts o /\
+    cells o' = select (keep_mask (length (cells o)) I') (cells o) /\
+    Forall2 (rcv_kid (keep_mask (length (cells o)) I') ACell) (kids o) (kids o').
+Proof.
+  intros HL. unfold remove_cells.
+  destruct (check_max (length (cells o)) I); [|discriminate].
+  destruct (np_delete (cells o) I) as [cs'|] eqn:D; [|discriminate].
+  apply np_delete_ok in D as [I' [HN ->]]. simpl.
+  rewrite select_length by (rewrite keep_mask_length; reflexivity).
+  destruct (rcv fl I ACell _ (kids o)) as [ks' e] eqn:R. unfold finish. simpl.
+  destruct e; [discriminate|]. intros H; inversion H; subst. simpl.
+  exists I'. repeat split; auto. eapply rcv_done; eauto.
+Qed.
+
+Lemma remove_cells_failed fl o I e o' :
+  kids_len ACell (length (cells o)) (kids o) ->
+  (f_skip_valueless fl = true \/ valued ACell (kids o)) ->
+  remove_cells fl o I = Failed e o' -> o' = o.
+Proof.
+  intros HL HS. unfold remove_cells.
+  destruct (check_max (length (cells o)) I); [|intros H; inversion H; reflexivity].
+  destruct (np_delete (cells o) I) as [cs'|] eqn:D; [|intros H; inversion H; reflexivity].
+  apply np_delete_ok in D as [I' [HN ->]]. simpl.
+  rewrite select_length by (rewrite keep_mask_length; reflexivity).
+  destruct (rcv_total fl I I' ACell (length (cells o)) (kids o) HL HN HS) as [ks' Hr].
+  rewrite Hr. unfold finish. simpl. discriminate.
+Qed.
+
+(* ================================================================== remove_vertices *)
+Definition vmask (o : obj) (I' : list nat) : list bool := keep_mask (length (verts o)) I'.
+
+Lemma points_rv_done fl o I o' : wf o -> ok o = OPoints -> points_remove_vertices fl o I = Done o' ->
+  exists I', norm_all (length (verts o)) I = Some I' /\
+             selection (vmask o I') (cell_mask (vmask o I') (cells o)) o o'.
+Proof.
+  intros W Hp. unfold points_remove_vertices.
+  destruct (check_max (length (verts o)) I); [|discriminate].
+  destruct (np_delete (verts o) I) as [vs'|] eqn:D; [|discriminate].
+  apply np_delete_ok in D as [I' [HN ->]]. simpl.
+  rewrite select_length by (rewrite keep_mask_length; reflexivity).
+  destruct (rcv fl I AVertex _ (kids o)) as [ks' e] eqn:R. unfold finish. simpl.
+  destruct e; [discriminate|]. intros H; inversion H; subst.
+  exists I'. split; [exact HN|].
+  pose proof (rcv_done fl I I' AVertex (length (verts o)) (kids o) ks' (wf_kids_len_v o W) HN R) as HK.
+  destruct W as (Wc & Wk & Wp). specialize (Wp Hp).
+  unfold selection, vmask. simpl. rewrite Wp. simpl.
+  repeat split; auto using keep_mask_length.
+  - intros j c Hj. destruct j; discriminate.
+  - rewrite select_nil_r. reflexivity.
+  - clear R. induction HK as [|k k' r r' Hk HK IH]; constructor.
+    + destruct Hk as (A1 & A2 & A3 & A4). unfold sel_kid. repeat split; auto.
+      rewrite A4. assert (Hko : kid_ok o k) by (inversion Wk; assumption).
+      unfold kid_ok in Hko. rewrite Wp in Hko.
+      destruct (kassoc k); simpl; try reflexivity.
+      destruct (kvals k) as [v|]; simpl; [|reflexivity]. simpl in Hko.
+      destruct v; [|discriminate]. reflexivity.
+    + apply IH. inversion Wk; assumption.
+Qed.
+
+Lemma points_rv_failed fl o I e o' : wf o ->
+  (f_skip_valueless fl = true \/ valued AVertex (kids o)) ->
+  points_remove_vertices fl o I = Failed e o' -> o' = o.
+Proof.
+  intros W HS. unfold points_remove_vertices.
+  destruct (check_max (length (verts o)) I); [|intros H; inversion H; reflexivity].
+  destruct (np_delete (verts o) I) as [vs'|] eqn:D; [|intros H; inversion H; reflexivity].
+  apply np_delete_ok in D as [I' [HN ->]]. simpl.
+  rewrite select_length by (rewrite keep_mask_length; reflexivity).
+  destruct (rcv_total fl I I' AVertex (length (verts o)) (kids o) (wf_kids_len_v o W) HN HS) as [ks' Hr].
+  rewrite Hr. unfold finish. simpl. discriminate.
+Qed.
